@@ -507,8 +507,26 @@ def autotool(selector, undo=False):
 
 @contextmanager
 def no_overlay():
-    reset = HandlerCollection.current.set(None)
+    outer = HandlerCollection.current.get()
+    # No handler is active inside the block. (The collection is marked like
+    # the body of a call: it remembers the overlays that end in it.)
+    HandlerCollection.current.set(HandlerCollection([], inside=True))
     try:
         yield
     finally:
-        HandlerCollection.current.reset(reset)
+        # The overlays and probes that were entered or left inside the block
+        # and are not confined to it are entered or left for what follows
+        curr = HandlerCollection.current.get()
+        pairs = list(outer.handler_pairs) if outer is not None else []
+        if curr is not None:
+            gone = {id(acc) for acc in curr.left}
+            pairs = [p for p in pairs if id(p[1]) not in gone]
+            pairs += curr.handler_pairs
+        if outer is not None and (pairs or outer.inside):
+            HandlerCollection.current.set(
+                HandlerCollection(pairs, outer.left, outer.inside)
+            )
+        else:
+            HandlerCollection.current.set(
+                HandlerCollection(pairs) if pairs else None
+            )
